@@ -350,3 +350,67 @@ func runCheckDebsig(p *Prog, members []string, role string, verifyOK bool) ([]si
 	}
 	return outs, ""
 }
+
+// runCheckDebsigTwice: one Deb checked twice, first against a keyring the library accepts, then against one it
+// rejects. Returns the second call's outcome (error nil?, verification calls of the second call).
+func runCheckDebsigTwice(p *Prog, members []string, role string) (secondErrNil bool, secondVerified []string, why string) {
+	fn := p.Method("deb", "Deb", "CheckDebsig")
+	debT := p.Named("deb", "Deb")
+	if fn == nil || debT == nil {
+		return false, nil, "deb.Deb.CheckDebsig not found"
+	}
+	m := debMachine(p, debScenario{})
+	verify := func(m *Machine, st *State, call *ssa.CallCommon, args []Val) ([]Val, bool) {
+		kr := debProv(st, args[0])
+		st.Effects = append(st.Effects, "verify:"+kr+"|"+debProv(st, args[1])+"|"+debProv(st, args[2]))
+		if kr != "the-good-keyring" {
+			return []Val{&TupleV{E: []Val{nilV{}, IfaceV{T: errType, V: "signature made by unknown entity"}}}}, true
+		}
+		id := st.alloc(types.Typ[types.Int], OpaqueV{"the-signing-entity"})
+		return []Val{&TupleV{E: []Val{Ptr{Obj: id}, nilV{}}}}, true
+	}
+	m.Hooks["golang.org/x/crypto/openpgp.CheckDetachedSignature"] = verify
+	m.Hooks["golang.org/x/crypto/openpgp.CheckArmoredDetachedSignature"] = verify
+	st := initState(m, "deb")
+	mid := st.alloc(structOf(debT).Field(fieldIndex(structOf(debT), "ArContent")).Type(), &MapObjV{})
+	mo := st.Heap[mid].V.(*MapObjV)
+	for i, n := range members {
+		mo.K = append(mo.K, n)
+		mo.V = append(mo.V, mkArEntry(p, st, n, i))
+	}
+	did := st.alloc(debT, mkStruct(debT, map[string]Val{"ArContent": MapV{Obj: mid}}))
+	st.push(fn, []Val{Ptr{Obj: did}, OpaqueV{"the-good-keyring"}, role}, nil)
+	res := m.Run(st)
+	if len(res) == 0 || res[0].Status != stRet {
+		return false, nil, retDesc(res)
+	}
+	first := res[0]
+	if tv, ok := first.Ret.(*TupleV); !ok || len(tv.E) != 2 {
+		return false, nil, "unexpected result shape"
+	} else if _, ok := tv.E[1].(nilV); !ok {
+		return false, nil, "the first verification (good keyring) does not succeed"
+	}
+	nBefore := len(first.Effects)
+	first.Status = stRun
+	first.Frames = nil
+	first.push(fn, []Val{Ptr{Obj: did}, OpaqueV{"an-unrelated-keyring"}, role}, nil)
+	res2 := m.Run(first)
+	if len(res2) == 0 || res2[0].Status != stRet {
+		return false, nil, retDesc(res2)
+	}
+	for _, o := range res2 {
+		tv := o.Ret.(*TupleV)
+		_, errNil := tv.E[1].(nilV)
+		var ver []string
+		for _, e := range o.Effects[nBefore:] {
+			if strings.HasPrefix(e, "verify:") {
+				ver = append(ver, strings.TrimPrefix(e, "verify:"))
+			}
+		}
+		if errNil {
+			return true, ver, ""
+		}
+		secondVerified = ver
+	}
+	return false, secondVerified, ""
+}
